@@ -236,9 +236,19 @@ func readBufioSize(reader *bufio.Reader, size int64) ([]byte, error, bool) {
 	read := int64(0)
 	var err error
 	var n int
+	// read in bounded pieces: the count may be far larger than the file
+	// (read(2^40) is "the rest of the file"), it must not be allocated up front
+	const maxChunk = 64 * 1024
+	var buf []byte
 	for read != size {
-		buf := make([]byte, size-read)
-		n, err = reader.Read(buf)
+		chunk := size - read
+		if chunk > maxChunk || chunk < 0 {
+			chunk = maxChunk
+		}
+		if int64(len(buf)) < chunk {
+			buf = make([]byte, chunk)
+		}
+		n, err = reader.Read(buf[:chunk])
 		if err != nil {
 			break
 		}
